@@ -12,3 +12,8 @@ package heimdall
 // the request view handed to the pipeline (logged so that contracts can name it)
 //@ iface (Context).Request
 //@   logged req
+
+// C17: the pipeline outputs map belongs to the request context (one per request); mechanisms may
+// write into it
+//@ iface (Context).Outputs
+//@   ensures ctxOwned(ret0)
